@@ -69,6 +69,7 @@ func seqGen() *rapid.Generator[Case] {
 		HeavyTail:   12,
 		MultiHdr:    true,
 		AllowMutate: true,
+		AllowCopy:   true,
 		Creators:    []string{"core", "core", "csv", "texttable", "markdown", "auto:none"},
 	})
 	return rapid.Custom(func(t *rapid.T) Case {
